@@ -18,7 +18,7 @@ from sim.harness import draw_knobs, Discard      # noqa: F401
 
 ID = "C08"
 LEVEL = "exploration"
-RUNS = {"quick": 3000, "thorough": 60000}
+RUNS = {"quick": 2500, "thorough": 60000}
 WALL_CAP = {"quick": 120, "thorough": 3000}
 RULE = ("one case = one drawn coil-limit configuration for 12 coils (max_pulse_ms, default/max powers, "
         "allow_enable, max_hold_duration, pulse_with_timed_enable, machine default_pulse_ms, flipper/autofire "
@@ -785,6 +785,11 @@ class Monitor:
                 if op == "timed_enable" and rec["pulse_ms"] == ms and rec["pulse_power"] == pp:
                     return lst.pop(i)
                 if op == "enable" and rec["pulse_ms"] == 0 and rec["pulse_power"] == pp and rec["hold_power"] == pp:
+                    # ambiguous with a deferred enable(pulse_ms=0, equal powers): then take the hold reading (no
+                    # software-pulse obligation is invented for what may be a legal hold)
+                    for j, r2 in enumerate(lst):
+                        if r2["kind"] == "enable" and r2["a"].get("pulse_ms") == 0 and holds_allowed(env):
+                            return lst.pop(j)
                     return lst.pop(i)
             elif r["kind"] == "enable" and op == "enable" and rec["pulse_ms"] == ms and rec["pulse_power"] == pp:
                 return lst.pop(i)
